@@ -219,6 +219,78 @@ def run(ctx):
         R.violation("WIRE", c_.where(), "WIRE|swapped-arguments|%s|%s" % (g_.name.split("::")[-1], nm_),
                     "`%s` is passed as parameter `%s` of %s, which has a same-typed parameter `%s`" % (nm_, g_.j["param_names"][i_], g_.name.split("::")[-1], nm_))
     R.ok(1, sample={"rule": "WIRE swapped arguments", "violations": len(sw)})
+    # generate_block: the block is assembled from exactly this block's index rows, every transaction is listed, every log of
+    # every listed transaction is accrued into the bloom, and each field of the block comes from its own source
+    import looprule as LR
+    gbf = db_fn(F, "generate_block")
+    if gbf is not None:
+        gr = [c for c in gbf.calls() if (c.method or "") == "get_range" and not gbf.is_cleanup(c.bb)]
+        R.ob(len(gr) == 1, "WIRE", gbf.where(), "WIRE|generate_block|scan", "generate_block does not perform exactly one range scan of the index")
+        for c in gr:
+            lo, hi = origin(gbf, c.args[1]), origin(gbf, c.args[2])
+            from guards import lin as _lin
+            from terms import calls_in as _calls_in
+
+            def key_arg(t):
+                ks = [x for x in _calls_in(t) if x[1].endswith("get_number_and_index_key") and len(x[2]) == 2]
+                if len(ks) != 1:
+                    return None
+                l0, l1 = _lin(ks[0][2][0]), _lin(ks[0][2][1])
+                if len(l0.terms) != 1 or not mentions(list(l0.terms)[0], "block_number") or l1.terms or l1.k != 0:
+                    return None
+                return l0.k
+            ok_lo = key_arg(lo) == 0
+            ok_hi = key_arg(hi) == 1
+            R.ob(ok_lo and ok_hi, "WIRE", c.where(), "WIRE|generate_block|scan-bounds",
+                 "the block's transactions are scanned over [%s, %s); expected [key(block_number, 0), key(block_number + 1, 0))" % (show(lo)[:60], show(hi)[:60]),
+                 sample={"rule": "WIRE", "fn": "generate_block", "scan": "[key(n,0), key(n+1,0))"})
+        pushes = [c for c in gbf.calls() if (c.method or "") == "push" and not gbf.is_cleanup(c.bb)]
+        accr = [c for c in gbf.calls() if (c.method or "") == "accrue_log" and not gbf.is_cleanup(c.bb)]
+        loops = LR.natural_loops(gbf)
+
+        def every_cycle_passes(call):
+            """the innermost loop containing the call cannot go round (head -> ... -> head) without passing the call's block"""
+            inner = [(h, body) for (h, body, backs) in loops if call.bb in body]
+            if not inner:
+                return False
+            h, body = min(inner, key=lambda x: len(x[1]))
+            seen, st = set(), [sx for sx in gbf.succ(h) if sx in body]
+            while st:
+                x = st.pop()
+                if x == h:
+                    return False
+                if x in seen or x == call.bb or x not in body:
+                    continue
+                seen.add(x)
+                st += [sx for sx in gbf.succ(x) if sx in body]
+            return True
+        R.ob(len(pushes) == 1 and every_cycle_passes(pushes[0]), "DOM-all", gbf.where(), "DOM-all|generate_block|every-tx-listed",
+             "an index row of the block can be passed over without its transaction being listed in the block",
+             sample={"rule": "DOM-all", "fn": "generate_block", "row": "every scanned row -> transactions.push"})
+        R.ob(len(accr) == 1 and every_cycle_passes(accr[0]), "DOM-all", gbf.where(), "DOM-all|generate_block|every-log-accrued",
+             "a log of a listed transaction can be passed over without being accrued into the block bloom",
+             sample={"rule": "DOM-all", "fn": "generate_block", "row": "every log -> bloom.accrue_log"})
+        BLOCK_SOURCES = {"gas_used": ("gas_used",), "hash": ("block_hash",), "logs_bloom": ("Bloom", "as_slice"), "nonce": ("len",), "number": ("block_number",),
+                         "timestamp": ("block_timestamp",), "mine_timestamp": ("total_time_took",), "transactions": ("new",),
+                         "transactions_root": ("from_leaves",), "parent_hash": ("get_block_hash",)}
+        BLOCK_EXCL = {"gas_used": ("total_time_took", "block_timestamp", "block_number"), "number": ("gas_used", "block_timestamp", "total_time_took"),
+                      "timestamp": ("gas_used", "total_time_took", "block_number"), "mine_timestamp": ("gas_used", "block_timestamp", "block_number"),
+                      "hash": ("get_block_hash",), "parent_hash": ()}
+        nb = 0
+        for c in gbf.calls():
+            if not (c.target_path or "").endswith("BlockResponseED::new") or gbf.is_cleanup(c.bb):
+                continue
+            g3 = F.fns.get(c.target_id)
+            for nm, a in zip((g3.j.get("param_names") or []) if g3 else [], c.args):
+                if nm not in BLOCK_SOURCES:
+                    continue
+                nb += 1
+                t = origin(gbf, a)
+                ok = any(mentions(t, tok) for tok in BLOCK_SOURCES[nm]) and not any(mentions(t, tok) for tok in BLOCK_EXCL.get(nm, ()))
+                R.ob(ok, "WIRE", c.where(), "WIRE|block-args|%s" % nm, "the block's `%s` is built from `%s`, not from its own source (%s)" % (nm, show(t)[:70], " / ".join(BLOCK_SOURCES[nm])),
+                     sample={"rule": "WIRE block constructor", "parameter": nm, "origin": show(t)[:50]} if nb % 4 == 1 else None)
+        R.floor("block_constructor_arguments", nb, 10)
+        # parent link: the previous block's hash (block_number - 1)
     # a drained transaction is indexed under its own inscription id (and runs with its own stored data)
     ER.clause_drain_own_data(R, F)
     return R
